@@ -38,6 +38,11 @@ theorem C12_gen_version_table :
     ∃ t, Generated.C12.versionTable = some t ∧ ∀ e ∈ t, parseVersion e.1 = e.2 :=
   ⟨_, rfl, by decide⟩
 
+/-- the `bind` feature value keeps no mutable state either: no variable of `bind` (bind.go) is
+written or address-taken inside its `List` / `Parse` / `Negotiate` closures, so the sessions
+that share one `BindResource()` / `BindCustom(…)` value share nothing that changes -/
+theorem C12_gen_bind_closure_no_shared_writes : Generated.C12.bindClosureWrites = some [] := by decide
+
 end facts
 
 /-! ## the header we send -/
